@@ -41,3 +41,16 @@ Example C13_nonvacuous :
   map Qnum (col (process_simulated_data results) "_period") = [0; 0; 1; 1]%Z /\
   panel_index 2 2 = [(0, 0); (0, 1); (1, 0); (1, 1)]%nat.
 Proof. vm_compute. repeat split. Qed.
+
+(* ---- about the regenerated forward loop of lcm.simulate.simulate (Gen/Simulate.v) ---------------- *)
+From LCM Require Import Model.RandomChoice Gen.Simulate Proofs.C04_SimulateLoop.
+(* one result per period, in period order; the result of period t holds the states the agents were *)
+(* in at t (not the next states), the value and the choices decided there                             *)
+Theorem C13_code_one_result_per_period : forall (E : sim_env),
+  length (sim_results E) = sim_n_periods E /\
+  forall t d, (t < sim_n_periods E)%nat -> snd (nth t (sim_results E) d) = fst (sim_at E t).
+Proof.
+  intros E. split; [exact (bundled_one_result_per_period E)|].
+  intros t d H. now rewrite (bundled_result_of_period E t d H).
+Qed.
+Print Assumptions C13_code_one_result_per_period.
